@@ -422,3 +422,193 @@ func when0(s string) string {
 func TestC05Clocks(t *testing.T) {
 	Drive(t, "C05", genC05, runC05)
 }
+
+// ---------------------------------------------------------------- CLI level: the real binary, with clock files lost between commands
+
+type c05CLIStep struct {
+	Kind  string `json:"kind"` // new comment pull peeredit delclocks close
+	Bug   int    `json:"bug,omitempty"`
+	Which int    `json:"which,omitempty"` // delclocks: -1 all, 0 bugs-edit, 1 bugs-create
+	Jump  int    `json:"jump,omitempty"`
+}
+
+type c05CLICase struct {
+	Seed  uint64       `json:"seed"`
+	Steps []c05CLIStep `json:"steps"`
+}
+
+func genC05CLI(t *rapid.T) c05CLICase {
+	c := c05CLICase{Seed: rapid.Uint64().Draw(t, "seed")}
+	one := rapid.Custom(func(t *rapid.T) c05CLIStep {
+		return c05CLIStep{Kind: rapid.SampledFrom([]string{"new", "comment", "comment", "close", "pull", "peeredit", "delclocks", "delclocks"}).Draw(t, "kind"),
+			Bug: rapid.IntRange(0, 4).Draw(t, "bug"), Which: rapid.IntRange(-1, 1).Draw(t, "which"), Jump: rapid.IntRange(3, 400).Draw(t, "jump")}
+	})
+	c.Steps = append([]c05CLIStep{{Kind: "new"}, {Kind: "comment"}, {Kind: "comment"}}, rapid.SliceOfN(one, 2, 10).Draw(t, "steps")...)
+	// the shape of interest: times above the clock are stored locally, the clock files disappear, a write follows
+	c.Steps = append(c.Steps, c05CLIStep{Kind: "peeredit", Jump: rapid.IntRange(3, 400).Draw(t, "pjump")}, c05CLIStep{Kind: "pull"},
+		c05CLIStep{Kind: "delclocks", Which: rapid.IntRange(-1, 1).Draw(t, "lastWhich")},
+		c05CLIStep{Kind: rapid.SampledFrom([]string{"new", "comment"}).Draw(t, "lastWrite"), Bug: rapid.IntRange(0, 4).Draw(t, "lastBug")})
+	return c
+}
+
+func runC05CLI(tb report.TB, rep *report.Reporter, c c05CLICase) {
+	root := mkdirTemp("c05cli-")
+	defer os.RemoveAll(root)
+	host, peerDir, remote := filepath.Join(root, "host"), filepath.Join(root, "peer"), filepath.Join(root, "remote.git")
+	for _, args := range [][]string{{"init", "-q", host}, {"init", "-q", peerDir}, {"init", "-q", "--bare", remote}} {
+		if res := RunGit(root, args...); res.Code != 0 {
+			tb.Fatalf("harness: %s", res.Out)
+		}
+	}
+	RunGit(host, "remote", "add", "origin", remote)
+	RunGit(peerDir, "remote", "add", "origin", remote)
+	for _, d := range []string{host, peerDir} {
+		if res := RunCLI(d, "user", "new", "-n", "clock user", "-e", "c@example.org", "--non-interactive"); res.Code != 0 {
+			tb.Fatalf("harness: user new: %s", res.Out)
+		}
+	}
+	fail := func(sig, detail string) bool { return rep.Fail(tb, "C05/cli/"+sig, detail, c) }
+	stored := func() (edit, create uint64, heads map[string]string) {
+		repo, err := repository.OpenGoGitRepo(host, "git-bug", nil)
+		if err != nil {
+			tb.Fatalf("harness: %v", err)
+		}
+		defer repo.Close()
+		heads = refsUnder(repo, "refs/bugs/")
+		for ref := range heads {
+			if d, err := ondisk.ReadDAG(repo, ref); err == nil {
+				e, cr := d.MaxClocks()
+				if e > edit {
+					edit = e
+				}
+				if cr > create {
+					create = cr
+				}
+			}
+		}
+		return
+	}
+	ids := func(dir string) []string { return strings.Fields(RunCLI(dir, "bug", "-f", "id").Out) }
+	var kinds []string
+	lossAfterMerge, merged := false, false
+	for i, s := range c.Steps {
+		kinds = append(kinds, s.Kind)
+		switch s.Kind {
+		case "peeredit":
+			// the peer's clock is far ahead
+			pr, err := repository.OpenGoGitRepo(peerDir, "git-bug", nil)
+			if err != nil {
+				tb.Fatalf("harness: %v", err)
+			}
+			cur := uint64(1)
+			if cl, err := pr.AllClocks(); err == nil {
+				if x, ok := cl["bugs-edit"]; ok {
+					cur = uint64(x.Time())
+				}
+			}
+			_ = pr.Witness("bugs-edit", lamport.Time(cur+uint64(s.Jump)))
+			_ = pr.Close()
+			RunCLI(peerDir, "pull", "origin")
+			if l := ids(peerDir); len(l) > 0 {
+				RunCLI(peerDir, "bug", "comment", "new", l[s.Bug%len(l)], "-m", "peer comment", "--non-interactive")
+			} else {
+				RunCLI(peerDir, "bug", "new", "-t", "peer bug", "-m", "m", "--non-interactive")
+			}
+			RunCLI(peerDir, "push", "origin")
+			continue
+		case "delclocks":
+			dir := filepath.Join(host, ".git", "git-bug", "clocks")
+			switch s.Which {
+			case -1:
+				_ = os.RemoveAll(dir)
+			case 0:
+				_ = os.Remove(filepath.Join(dir, "bugs-edit"))
+			default:
+				_ = os.Remove(filepath.Join(dir, "bugs-create"))
+			}
+			if merged {
+				lossAfterMerge = true
+			}
+			continue
+		}
+		maxEdit, maxCreate, headsBefore := stored()
+		var res CLIResult
+		l := ids(host)
+		switch s.Kind {
+		case "new":
+			res = RunCLI(host, "bug", "new", "-t", fmt.Sprintf("bug %d", i), "-m", "m", "--non-interactive")
+		case "comment":
+			if len(l) == 0 {
+				continue
+			}
+			res = RunCLI(host, "bug", "comment", "new", l[s.Bug%len(l)], "-m", fmt.Sprintf("comment %d", i), "--non-interactive")
+		case "close":
+			if len(l) == 0 {
+				continue
+			}
+			res = RunCLI(host, "bug", "status", "close", l[s.Bug%len(l)])
+		case "pull":
+			res = RunCLI(host, "pull", "origin")
+			if e2, _, _ := stored(); e2 > maxEdit {
+				merged = true
+			}
+		}
+		where := fmt.Sprintf("step #%d %s", i, s.Kind)
+		if res.Code != 0 && (s.Kind == "new" || s.Kind == "comment") {
+			if fail("command-fails/"+s.Kind+"/"+Normalize(lastLine(res.Out)), where+": "+res.Out) {
+				return
+			}
+		}
+		// every commit this command wrote carries times above everything stored before it
+		repo, err := repository.OpenGoGitRepo(host, "git-bug", nil)
+		if err != nil {
+			tb.Fatalf("harness: %v", err)
+		}
+		for ref, head := range refsUnder(repo, "refs/bugs/") {
+			if headsBefore[ref] == head || s.Kind == "pull" {
+				continue
+			}
+			d, err := ondisk.ReadDAG(repo, ref)
+			if err != nil {
+				continue
+			}
+			old := map[string]bool{}
+			if h, ok := headsBefore[ref]; ok {
+				if od, err := ondisk.ReadDAGAt(repo, h); err == nil {
+					for k := range od.Packs {
+						old[k] = true
+					}
+				}
+			}
+			for h, p := range d.Packs {
+				if old[h] {
+					continue
+				}
+				if p.EditClock <= maxEdit {
+					_ = repo.Close()
+					if fail("edit-time-not-above-stored-commits", fmt.Sprintf("%s wrote commit %s with edit time %d although a local commit already stores %d", where, h[:8], p.EditClock, maxEdit)) {
+						return
+					}
+				}
+				if p.HasCreate && p.CreateClock <= maxCreate {
+					_ = repo.Close()
+					if fail("create-time-not-above-stored-commits", fmt.Sprintf("%s wrote commit %s with create time %d although a local bug already stores %d", where, h[:8], p.CreateClock, maxCreate)) {
+						return
+					}
+				}
+			}
+		}
+		_ = repo.Close()
+		// and the repository can read back what it wrote
+		if out := RunCLI(host, "bug"); out.Code != 0 {
+			if fail("cannot-read-back/"+Normalize(lastLine(out.Out)), out.Out) {
+				return
+			}
+		}
+	}
+	rep.Case("cli|"+strings.Join(kinds, ","), lossAfterMerge, []string{"cli", fmt.Sprintf("clock-loss-after-merge:%v", lossAfterMerge)}, c)
+}
+
+func TestC05CLI(t *testing.T) {
+	Drive(t, "C05", genC05CLI, runC05CLI)
+}
